@@ -676,9 +676,15 @@ fn run_steps(module: &str, md: &MessageDescriptor, data: &[u8], steps: Vec<(Supp
     let mut accepted: Vec<(usize, String, Option<Vec<usize>>)> = vec![];
     let mut skipped = 0usize;
     let mut first_skip = String::new();
+    // the module is imported once, twice or three times: from several namespaces, from several sources
+    // of one namespace, and twice in one source; it must still be ONE module with ONE output per scan
+    let n_ns = 1 + rng.below(3) as usize;
+    let per_ns = queries.len() / n_ns + 1;
     for (i, q) in queries.iter().enumerate() {
+        if n_ns > 1 && i % per_ns == 0 { comp.new_namespace(&format!("ns{}", i / per_ns)); }
         let text = query_text(module, q);
-        let src = format!("import \"{}\"\nrule q{} {{ condition: {} }}", module, i, text);
+        let dup = if i % 7 == 3 { format!("import \"{}\"\n", module) } else { String::new() };
+        let src = format!("{}import \"{}\"\nrule q{} {{ condition: {} }}", dup, module, i, text);
         ir.0.lock().unwrap().clear();
         match comp.add_source(src.as_str()) {
             Ok(_) => {
@@ -697,6 +703,9 @@ fn run_steps(module: &str, md: &MessageDescriptor, data: &[u8], steps: Vec<(Supp
         }
     }
     let rules = comp.build();
+    // Rules::imports(): every imported module once
+    let imports: Vec<String> = rules.imports().map(|m| m.to_string()).collect();
+    let imports_ok = imports == vec![module.to_string()];
     // function verdicts with the output computed by the module (fresh scanner)
     let computed_funcs: std::collections::HashSet<String> = if funcs.is_empty() { Default::default() } else {
         let mut sc0 = yara_x::Scanner::new(&rules);
@@ -719,7 +728,7 @@ fn run_steps(module: &str, md: &MessageDescriptor, data: &[u8], steps: Vec<(Supp
         let listed = res.module_outputs().any(|(name, _)| name == module);
         // the message this scan must observe
         let msg: Box<dyn MessageDyn> = match (&expected, &view) { (Some(m), _) => m.clone_box(), (None, Some(v)) => v.clone_box(), (None, None) => continue };
-        let mut views = vec![];
+        let mut views = vec![imports_ok];
         if expected.is_some() {
             // the public view of the results is the supplied message
             views.push(view.as_ref().map_or(false, |v| canon(&**v) == canon(&*msg)));
@@ -753,9 +762,9 @@ fn run_steps(module: &str, md: &MessageDescriptor, data: &[u8], steps: Vec<(Supp
         let coq = format!("mk \"{}\" (fun nm => ({}, {}, [{}], [{}], [{}], [{}]))", module, ty, val, strs.join("; "), qs.join("; "), pairs.join("; "),
             views.iter().map(|b| coq_bool(*b).to_string()).collect::<Vec<_>>().join("; "));
         let label = if n_steps > 1 { format!("{}:scan{}:{}", label, k + 1, how) } else { label };
-        let json = format!("{{\"label\":{},\"module\":{},\"how\":{},\"scan_in_sequence\":{},\"data_hex\":\"{}\",\"message_hex\":\"{}\",\"skipped\":{},\"first_skipped\":{},\"views\":{:?},\"function_pairs\":[{}],\"queries\":[{}]}}",
+        let json = format!("{{\"label\":{},\"module\":{},\"how\":{},\"scan_in_sequence\":{},\"data_hex\":\"{}\",\"message_hex\":\"{}\",\"skipped\":{},\"first_skipped\":{},\"namespaces\":{},\"imports\":{:?},\"views\":{:?},\"function_pairs\":[{}],\"queries\":[{}]}}",
             json_str(&label), json_str(module), json_str(how), k + 1, if data.len() <= 4096 { hex(data) } else { String::from("(large)") },
-            hex(&msg.write_to_bytes_dyn().unwrap_or_default()), skipped, json_str(&first_skip), views, jp.join(","), jq.join(","));
+            hex(&msg.write_to_bytes_dyn().unwrap_or_default()), skipped, json_str(&first_skip), n_ns, imports, views, jp.join(","), jq.join(","));
         outs.push(CaseOut { label, coq, json, queries: accepted.len() + pairs.len(), skipped, kinds, true_verdicts: trues });
     }
     Ok(outs)
